@@ -52,6 +52,9 @@ def dag1():
         ("inst", "a", ("mod", "A"), [("q", sig("z"))]),
         ("inst", "l", ("mod", "L"), [("a", nc("n1")), ("b", sig("z"))]),
         ("inst", "pz", ("ext", "P2", {"k": 9}), [("a", sig("z"))]),
+        # a reference group whose implicit net gets the very name (`l0_a`) that M, two levels down, needs for one of its own
+        ("inst", "l0", ("mod", "L"), [("b", sig("z"))]),
+        ("inst", "l1", ("mod", "L"), [("a", pref("l0", "a")), ("b", sig("z"))]),
     ]}
     # C2: two M instances whose bundle ports are tied port-to-port only (an implicit bundle-valued net, no explicit Bundle)
     C2 = {"name": "C2", "style": "class", "decls": [
